@@ -129,3 +129,63 @@ func H_C18_demux() {
 		vfReach("checked")
 	})
 }
+
+// H_C18_cancel_pending: an envelope for key A has been read off the shared transport but its
+// logical connection's consumer never takes it; Cancel(A) arrives (at any point). Envelopes of
+// another key must still be read, announced and delivered.
+func H_C18_cancel_pending() {
+	shared := newZZConn()
+	var mu vfMutex
+	nconn := 0
+	gotB := false
+	onNew := func(rw RpcReadWriter) {
+		vfHarnessGoroutine()
+		mu.vfLock()
+		idx := nconn
+		nconn++
+		mu.vfUnlock()
+		if idx == 0 {
+			<-make(chan struct{}) // the first connection's consumer (key A) never reads
+		}
+		r, err := rw.Read(context.Background())
+		if err == nil && r.Header.Source == "B" {
+			mu.vfLock()
+			gotB = true
+			mu.vfUnlock()
+		}
+	}
+	d := NewDemux(context.Background(), shared, func(r *Rpc) string { return r.Header.Source }, onNew)
+	go func() {
+		vfHarnessGoroutine()
+		d.Run()
+	}()
+	sent := 0
+	readA := make(chan struct{})
+	go func() {
+		shared.in <- &Rpc{Id: 1, Header: &RpcHeader{Source: "A"}}
+		sent = 1
+		close(readA) // the run loop has taken A's envelope off the shared transport
+		shared.in <- &Rpc{Id: 2, Header: &RpcHeader{Source: "B"}}
+		sent = 2
+	}()
+	go func() {
+		<-readA
+		// wait until the connection for A exists (Cancel before that is a no-op), then cancel at any point
+		for {
+			d.conns.Lock()
+			_, ok := d.conns.value["A"]
+			d.conns.Unlock()
+			if ok {
+				break
+			}
+			vfYield()
+		}
+		d.Cancel("A")
+	}()
+	vfAtQuiescence(func() {
+		vfAssert(sent == 2, "run-loop-keeps-reading-after-Cancel-with-a-pending-envelope")
+		vfAssert(gotB, "other-keys-still-delivered")
+		vfReach("checked")
+		d.Stop()
+	})
+}
